@@ -74,7 +74,7 @@ CHECKS = {
              "geqrf's own assertions designates only elements of the view (C14_geqrf_checks_suffice). C14_workspace: query call then "
              "real call with the same arguments, workspace allocated and returned once on every path. The *_factorization theorems: "
              "given LAPACK's column-major contracts (premises) the factors reconstruct the input in the view's own reading, values "
-             "in LAPACK's order, only documented outputs change. Tie: interposed dpotrf_/dgeqrf_/dgesvd_/dsyev_ (every argument, "
+             "in LAPACK's order, only documented outputs change. Tie (the iterator-level potrf(uplo, first, last) is also called on proper leading sub-ranges and compared with the model's potrf_it_call / potrf_it_ret): interposed dpotrf_/dgeqrf_/dgesvd_/dsyev_ (every argument, "
              "workspace event, returned view) against the extracted model; residuals, ordering, guard cells and the unselected "
              "triangle checked on the library's own output.",
         design_ref="5/C14", technique="Coq proof (index arithmetic of the marshalling; LAPACK contracts as premises) + extracted-"
